@@ -56,6 +56,10 @@ retry:
 	}
 
 	var weight uint64
+	if b.V2 != nil {
+		// the transaction added above counts towards the block's weight
+		weight = cs.V2TransactionWeight(b.V2.Transactions[0])
+	}
 	for _, txn := range txns {
 		if weight += cs.TransactionWeight(txn); weight > cs.MaxBlockWeight() {
 			break
